@@ -73,6 +73,7 @@ class Child(object):
     def __init__(self, kind, label):
         _n[0] += 1
         self.kind, self.label = kind, label
+        self.effects = kind == 'stmts'
         self.G = z3.Const('G_%s_%d' % (label, _n[0]), SetD)
         self.P = z3.Bool('P_%s_%d' % (label, _n[0]))
         self.tr = Tr(self.G, self.P) if kind == 'stmts' else ID
